@@ -191,32 +191,49 @@ func wireMatch(w *World, wc *wireCtx, r *Report) {
 	// VisitMatchPair: Value from IDENTIFIER, Key from a DIGITS/STRING terminal; list walk handles both token kinds
 	okVal, okKey := true, true
 	nLit := 0
-	forEachInstr(vmp, func(b *ssa.BasicBlock, ins ssa.Instruction) {
-		st, ok := ins.(*ssa.Store)
-		if !ok {
-			return
+	// the visitor method and the helpers it builds pairs with
+	pairFns := []*ssa.Function{vmp}
+	{
+		seen := map[*ssa.Function]bool{vmp: true}
+		for i := 0; i < len(pairFns); i++ {
+			forEachInstr(pairFns[i], func(_ *ssa.BasicBlock, ins ssa.Instruction) {
+				if c, ok := ins.(ssa.CallInstruction); ok {
+					if g := c.Common().StaticCallee(); g != nil && g.Pkg == w.Parser && !seen[g] && !strings.HasPrefix(g.Name(), "Visit") && g.Blocks != nil {
+						seen[g] = true
+						pairFns = append(pairFns, g)
+					}
+				}
+			})
 		}
-		fa, ok := st.Addr.(*ssa.FieldAddr)
-		if !ok {
-			return
-		}
-		tn, f, _, _ := fieldOf(fa)
-		if tn != "MatchPair" {
-			return
-		}
-		switch f {
-		case "Value":
-			nLit++
-			if !textOfAccessor(w, st.Val, ctxs, map[string]bool{"IDENTIFIER": true}, 0) {
-				okVal = false
+	}
+	for _, pf := range pairFns {
+		forEachInstr(pf, func(b *ssa.BasicBlock, ins ssa.Instruction) {
+			st, ok := ins.(*ssa.Store)
+			if !ok {
+				return
 			}
-		case "Key":
-			if !textOfAccessor(w, st.Val, ctxs, map[string]bool{"DIGITS": true, "STRING": true, "<terminal>": true}, 0) {
-				okKey = false
+			fa, ok := st.Addr.(*ssa.FieldAddr)
+			if !ok {
+				return
 			}
-		}
-	})
-	if nLit >= 2 && okVal {
+			tn, f, _, _ := fieldOf(fa)
+			if tn != "MatchPair" {
+				return
+			}
+			switch f {
+			case "Value":
+				nLit++
+				if !textOfAccessor(w, st.Val, ctxs, map[string]bool{"IDENTIFIER": true}, 0) {
+					okVal = false
+				}
+			case "Key":
+				if !textOfAccessor(w, st.Val, ctxs, map[string]bool{"DIGITS": true, "STRING": true, "<terminal>": true}, 0) {
+					okKey = false
+				}
+			}
+		})
+	}
+	if nLit >= 1 && okVal {
 		r.pass(ruleExp, "each pair's packet is the matchPair's IDENTIFIER", w.pos(vmp.Pos()), "")
 	} else {
 		r.fail(ruleExp, "each pair's packet is the matchPair's IDENTIFIER", w.pos(vmp.Pos()), fmt.Sprintf("MatchPair.Value is not always the text of ctx.IDENTIFIER() (%d literals)", nLit))
@@ -229,30 +246,32 @@ func wireMatch(w *World, wc *wireCtx, r *Report) {
 	// list walk covers both token kinds
 	digits, strs := tokenTypeConst(w, "PacketDslParserDIGITS"), tokenTypeConst(w, "PacketDslParserSTRING")
 	seenD, seenS, usesAllD, usesAllS := false, false, false, false
-	forEachInstr(vmp, func(b *ssa.BasicBlock, ins ssa.Instruction) {
-		if bo, ok := ins.(*ssa.BinOp); ok && bo.Op == token.EQL {
-			for _, side := range []ssa.Value{bo.X, bo.Y} {
-				if k, ok := side.(*ssa.Const); ok && k.Value != nil {
-					if k.Int64() == digits {
-						seenD = true
-					}
-					if k.Int64() == strs {
-						seenS = true
+	for _, pf := range pairFns {
+		forEachInstr(pf, func(b *ssa.BasicBlock, ins ssa.Instruction) {
+			if bo, ok := ins.(*ssa.BinOp); ok && bo.Op == token.EQL {
+				for _, side := range []ssa.Value{bo.X, bo.Y} {
+					if k, ok := side.(*ssa.Const); ok && k.Value != nil {
+						if k.Int64() == digits {
+							seenD = true
+						}
+						if k.Int64() == strs {
+							seenS = true
+						}
 					}
 				}
 			}
-		}
-		if c, ok := ins.(*ssa.Call); ok {
-			if _, ai, ok := w.accessorOf(c, ctxs); ok && ai.Ctx == "ListContext" {
-				if ai.Name == "AllDIGITS" {
-					usesAllD = true
-				}
-				if ai.Name == "AllSTRING" {
-					usesAllS = true
+			if c, ok := ins.(*ssa.Call); ok {
+				if _, ai, ok := w.accessorOf(c, ctxs); ok && ai.Ctx == "ListContext" {
+					if ai.Name == "AllDIGITS" {
+						usesAllD = true
+					}
+					if ai.Name == "AllSTRING" {
+						usesAllS = true
+					}
 				}
 			}
-		}
-	})
+		})
+	}
 	if (seenD && seenS) || (usesAllD && usesAllS) {
 		r.pass(ruleExp, "a key list contributes its numeric and its string keys", w.pos(vmp.Pos()), "")
 	} else {
@@ -490,6 +509,33 @@ func textOfAccessor(w *World, v ssa.Value, ctxs map[string]*CtxInfo, allowed map
 	}
 	v = stripIdentity(v)
 	switch x := v.(type) {
+	case *ssa.Parameter:
+		// handed in: every call site in the program text passes such a text
+		fn := x.Parent()
+		n := w.CallGraph().Nodes[fn]
+		if fn == nil || n == nil {
+			return false
+		}
+		idx := -1
+		for i, q := range fn.Params {
+			if q == x {
+				idx = i
+			}
+		}
+		real := 0
+		for _, e := range n.In {
+			if e.Caller.Func.Synthetic != "" {
+				continue
+			}
+			real++
+			if e.Site == nil || e.Site.Common().IsInvoke() || idx < 0 || idx >= len(e.Site.Common().Args) {
+				return false
+			}
+			if !textOfAccessor(w, e.Site.Common().Args[idx], ctxs, allowed, depth+1) {
+				return false
+			}
+		}
+		return real > 0
 	case *ssa.Phi:
 		for _, e := range x.Edges {
 			if s, isConst := constString(e); isConst && s == "" {
